@@ -3,7 +3,7 @@
    (valid, with compressed messages, every inflater), Proofs/ReaderViolP.v (first violation). *)
 From Coq Require Import List NArith ZArith Bool.
 From WS Require Import Base.Words Gen.Consts Model.Mask Model.Frame Model.Proto Model.CloseCodec Model.RefDecoder Model.Reader
-  Model.Script Model.ScriptZ Proofs.FrameP Proofs.ReaderP Proofs.ReaderRefP Proofs.ReaderZP Proofs.ReaderCutP Proofs.ReaderViolP Proofs.ReaderSeqViolP Gen.FrameCode Proofs.GenTieP.
+  Model.Script Model.ScriptZ Proofs.FrameP Proofs.ReaderP Proofs.ReaderRefP Proofs.ReaderZP Proofs.ReaderCutP Proofs.ReaderViolP Proofs.ReaderSeqViolP Gen.FrameCode Gen.ReadCode Proofs.GenTieP.
 Import ListNotations.
 Open Scope N_scope.
 
@@ -181,3 +181,28 @@ Theorem C03_model_literals_are_source :
   c_MessageText = c_opText /\ c_MessageBinary = c_opBinary /\ (c_maxCloseReason + 2 = c_maxControlPayload)%Z.
 Proof. exact model_literals_are_source. Qed.
 Print Assumptions C03_model_literals_are_source.
+
+(* the whole header-level violation list of the model is: the checks readLoop makes on a decoded header, AS TRANSLATED from
+   read.go on this run; a reserved opcode; the checks of handleControl on a control frame, as translated.  A changed
+   comparison, bound or parenthesisation in one of those source checks breaks this theorem. *)
+Theorem C03_violation_list_is_source : forall cfg h, h_plen h < 9223372036854775808 ->
+  hdr_violation cfg h =
+    gen_readloop_refused (negb (is_server cfg)) (h_masked h) (h_rsv1 h) (h_rsv2 h) (h_rsv3 h) (gen_rsv1_illegal (flate_on cfg) (Z.of_N (h_opc h)))
+    || negb ((h_opc h <=? 2) || ((8 <=? h_opc h) && (h_opc h <=? 10)))
+    || (is_control (h_opc h) && gen_control_refused (Z.of_N (h_plen h)) (h_fin h)).
+Proof. exact hdr_violation_is_source. Qed.
+Print Assumptions C03_violation_list_is_source.
+
+(* of readLoop's refusals exactly those whose source branch calls writeError put a Close 1002 on the wire in the model too *)
+Theorem C03_refusal_with_close_is_source : forall cfg fuel s h rest, r_closed s = false -> dec_hdr (r_inq s) = DecOk h rest ->
+  gen_readloop_closing (negb (is_server cfg)) (h_masked h) (h_rsv1 h) (h_rsv2 h) (h_rsv3 h) (gen_rsv1_illegal (flate_on cfg) (Z.of_N (h_opc h))) = true ->
+  read_loop cfg (S fuel) s = Err REOther (write_error (set_inq s rest) c_StatusProtocolError).
+Proof. exact readloop_closing_is_source. Qed.
+Print Assumptions C03_refusal_with_close_is_source.
+
+Theorem C03_silent_refusal_is_source : forall cfg fuel s h rest, r_closed s = false -> dec_hdr (r_inq s) = DecOk h rest ->
+  gen_readloop_closing (negb (is_server cfg)) (h_masked h) (h_rsv1 h) (h_rsv2 h) (h_rsv3 h) (gen_rsv1_illegal (flate_on cfg) (Z.of_N (h_opc h))) = false ->
+  gen_readloop_refused (negb (is_server cfg)) (h_masked h) (h_rsv1 h) (h_rsv2 h) (h_rsv3 h) (gen_rsv1_illegal (flate_on cfg) (Z.of_N (h_opc h))) = true ->
+  read_loop cfg (S fuel) s = Err REOther (set_inq s rest).
+Proof. exact readloop_silent_refusal_is_source. Qed.
+Print Assumptions C03_silent_refusal_is_source.
